@@ -14,7 +14,11 @@ THEOREMS = {
             "Backend.C20_quiet_idle_poll_retains_live", "Backend.C20_reclaimed_delivered", "Backend.C20_narrow_counter_1bit",
             "Backend.C20_narrow_counter_2bit", "Backend.PC.CInv_runOps",
             "Obligations.BackendC.invalid_counter_wide", "Obligations.BackendC.c20_structure",
-            "Obligations.BackendC.C20_counter_extracted", "Obligations.BackendC.C20_early_return_extracted"],
+            "Obligations.BackendC.C20_counter_extracted", "Obligations.BackendC.C20_early_return_extracted",
+            # shrink half (unbounded-queue chain model, Props/C20Shrink.lean, shared with C02)
+            "Uspsc.C20_shrink_reported_capacity", "Uspsc.C20_shrink_at_most_half", "Uspsc.C20_shrink_noop",
+            "Uspsc.C02_shrink_reports", "Uspsc.C20_shrink_capacity_one_degenerate", "Uspsc.C20_shrink_loses_nothing",
+            "Uspsc.C20_shrink_old_node_freed_after_drained", "Uspsc.C02_nextPow2_spec", "Uspsc.C02_trace_fifo"],
     "C17": ["Backend.C17_erased_logger_has_no_record", "Backend.C17_erase_only_when_drained",
             "Backend.C17_erase_step_guarded", "Backend.C17_hoisted_check_erases_queued_logger",
             "Backend.C17_dead_sink_unreferenced", "Backend.C17_no_use_after_dtor", "Backend.C17_alive_sink_no_dtor",
@@ -24,7 +28,14 @@ THEOREMS = {
             "Backend.C17_create_returns_existing",
             "Backend.C17_create_fresh_object", "Backend.C17_create_waits_for_erase", "Backend.C17_remove_busy_noop",
             "Backend.PC.FInv_runOps", "Obligations.BackendC.c17_structure",
-            "Obligations.BackendC.C17_erased_logger_has_no_record_extracted"],
+            "Obligations.BackendC.C17_erased_logger_has_no_record_extracted",
+            # audit gaps (a)-(d): Props/C17Destroy.lean
+            "Backend.C17_unreferenced_sink_destroyed", "Backend.C17_sink_destroyed_iff_unreferenced",
+            "Backend.C17_cleanup_reaps_released_sinks", "Backend.C17_erase_after_everything_popped",
+            "Backend.C17_erased_logger_statements_popped", "Backend.C17_recreate_after_removal",
+            "Backend.C17_ids_in_range", "Backend.PC.PR_runOps", "Backend.PC.FD_runOps",
+            # pending blocking removals are served by the pass that erases their logger, none is forgotten (Props/C17Flags.lean)
+            "Backend.C17_cleanup_serves_erased", "Backend.C17_clear_all_forgets_second_caller"],
     "C07": ["Backend.C07_conservation", "Backend.C07_unregistered_empty", "Backend.C07_exit_drains",
             "Backend.C07_exit_flushes_last", "Backend.C07_exit_never_adds", "Backend.C07_pop_progress",
             "Backend.C07_exit_terminates_partial", "Backend.C07_exit_terminates", "Backend.C07_exit_drains_everything",
@@ -34,8 +45,8 @@ THEOREMS = {
 MODULES = {
     "C07": ["QuillModel.Props.C07Drain"],
     "C16": ["QuillModel.Props.C16"],
-    "C17": ["QuillModel.Props.C17", "QuillModel.Props.C17Removal"],
-    "C20": ["QuillModel.Props.C20"],
+    "C17": ["QuillModel.Props.C17", "QuillModel.Props.C17Removal", "QuillModel.Props.C17Destroy", "QuillModel.Props.C17Flags"],
+    "C20": ["QuillModel.Props.C20", "QuillModel.Props.C20Shrink"],
 }
 OBLIG = ["QuillModel.Obligations.BackendC"]
 OBLIG_BY_PROP = {"C16": ["QuillModel.Obligations.BackendC_C16", "QuillModel.Obligations.BackendC_Common"], "C20": ["QuillModel.Obligations.BackendC_C20", "QuillModel.Obligations.BackendC_Common"],
@@ -48,3 +59,4 @@ MODULES["C07"] += ["QuillModel.Props.C07Unbounded"]
 THEOREMS["C17"] += ["Backend.C17_accepted_history_grows", "Backend.C17_parking_call_committed_its_request",
                     "Backend.C17_remove_blocking_parks_on_its_record", "Backend.C17_remove_blocking_contract"]
 MODULES["C17"] += ["QuillModel.Props.C17Parked"]
+THEOREMS["C17"] += ["Backend.C17_parked_flag_has_record", "Backend.C17_parked_removal_contract"]
